@@ -33,13 +33,33 @@ for _k, _cls in PROV_REC_CLS.items():
 
 
 class World:
-    def __init__(self):
+    _count = 0
+
+    def __init__(self, own_ns=None):
+        """own_ns: the caller keeps Namespace objects of its own (every second world unless said otherwise): names are minted
+        from them (`ns[local]`, through the object's cache) and the objects themselves are what gets registered; otherwise
+        every name and registration uses a throw-away Namespace. The model sees the same ops either way."""
+        World._count += 1
+        self.own_ns = (World._count % 2 == 0) if own_ns is None else bool(own_ns)
+        self.ns_pool = {}
         self.ops = []
         self.outs = []
         self.conts = {}
         self.recs = {}
         self.next = 0
-        self.emit({"op": "reset"}, {})
+        self.emit({"op": "reset", "own_ns": True} if self.own_ns else {"op": "reset"}, {})
+
+    def ns_obj(self, p, u):
+        k = (p, u)
+        if k not in self.ns_pool:
+            self.ns_pool[k] = Namespace(p, u)
+        return self.ns_pool[k]
+
+    def qname(self, p, u, loc):
+        """a QualifiedName the way this world's caller makes them"""
+        if self.own_ns:
+            return self.ns_obj(p, u)[loc]
+        return QualifiedName(Namespace(p, u), loc)
 
     # -- bookkeeping
     def emit(self, op, out):
@@ -112,7 +132,7 @@ class World:
         return h, err
 
     def add_ns(self, c, p, u):
-        n = self.conts[c].add_namespace(p, u)
+        n = self.conts[c].add_namespace(self.ns_obj(p, u)) if self.own_ns else self.conts[c].add_namespace(p, u)
         self.emit({"op": "add_ns", "c": c, "p": p, "u": u}, {"p": n.prefix, "u": n.uri})
         return n
 
@@ -565,6 +585,20 @@ class World:
             text = prov_to_dot(self.conts[c], **opts).to_string()
             ok, res = dotjson.run_dot(text)
             out = {"graph": dotjson.canon_from_graphviz(res)} if ok else {"graph": None, "graphviz_error": res[:300]}
+            if ok and opts.get("use_labels"):
+                # an element with a prov:label value that *is* its identifier (same URI, spelled differently: an xsd:anyURI, or a
+                # name under another prefix) is drawn with that spelling and no subtitle when Python's set order serves that value
+                # first; which of several labels comes first is not a function of the document (Identifier hashes its class)
+                alts = {}
+                cobj = self.conts[c]
+                for scope in [cobj] + (list(cobj.bundles) if cobj.is_document() else []):
+                    for r in scope.records:
+                        if r.is_element() and r.identifier is not None:
+                            for v in r.get_attribute(PROV["label"]):
+                                if isinstance(v, Identifier) and v.uri == r.identifier.uri and str(v) != str(r.identifier):
+                                    alts.setdefault(r.identifier.uri, []).append(str(v))
+                if alts:
+                    out["label_alts"] = alts
         except Exception as e:  # noqa
             out = {"graph": None, "err": err_name(e)}
         self.emit(op, out)
@@ -714,6 +748,16 @@ def diff_outputs(ops, impl_outs, model_outs):
             mb = dotjson.canon_from_model(b)
             defined = mb.pop("defined_in")
             ga = dict(a["graph"])
+            if a.get("label_alts"):
+                by_name = {n["name"]: n for n in mb["nodes"]}
+                nodes = []
+                for n in ga["nodes"]:
+                    m = by_name.get(n["name"])
+                    if m is not None and n["label"] != m["label"] and n["label"] in a["label_alts"].get(n.get("url"), []):
+                        n = dict(n, label=m["label"])      # the other admissible drawing of this element
+                        DIVERGENCES["dot-label-is-identifier"] = DIVERGENCES.get("dot-label-is-identifier", 0) + 1
+                    nodes.append(n)
+                ga["nodes"] = nodes
             mem = ga.pop("members", {})
             # every node the model defines inside a cluster must be a member of that cluster in Graphviz's view
             ok_members = all(set(v) <= set(mem.get(k, [])) for k, v in defined.items())
